@@ -247,7 +247,9 @@ def run_plan(plan, seed, choices=None):
                 if s_.is_shutdown:
                     continue
                 p_ = s_._pools.get(host)
-                if p_ is None or p_.is_shutdown:
+                # (a pool that was opened during this up handling and has shut itself down again - its fresh connection was reset -
+                # is the failure detector's business: only a session that was given no pool at all counts)
+                if p_ is None:
                     up_without_pool.append((sim.nlog, str(host.endpoint.address), si, id(s_)))
 
         def on_down(self, host):
